@@ -92,7 +92,8 @@ class GeneratePush(Case):
     prop = 'C17'
     tier = 'P'
     name = "generate_push_instruction"
-    functions = (go.generate_push_instruction,)
+    functions = (go.generate_push_instruction, utils.get_ins_size)
+    stubs = {'sfs_generator.utils.get_num_bytes_int': lambda it, v: cost.nbytes(v)}
     seeds = [dict(p0=p, value=v, idx=0) for p in (False, True) for v in (0, 1, 2 ** 256 - 1)]
 
     def run(self, H):
@@ -112,8 +113,7 @@ class GeneratePush(Case):
         H.check('value-kept', sand(len(o["value"]) == 1, sym.sym_eq(o["value"][0], value)))
         H.check('gas=table', o["gas"] == ite(sand(p0, value == 0), 2, 3))
         H.check('outpt', o["outpt_sk"] == ["s(7)"] and o["inpt_sk"] == [])
-        if "size" in o:
-            H.check('size=table', o["size"] == cost.push_bytes(value, p0) if False else True)
+        H.check('size=table', o["size"] == cost.push_bytes(value, p0))
 
 
 class IdToAsmPush(Case):
